@@ -55,7 +55,70 @@ def statics_of(jm):
                         changed = True
         if not changed:
             break
+    # a class whose width() returns a literal has that width wherever `.width()` is called on it (children with static
+    # inherited and own parts); check_width compares the literal with the reference
+    for cn, c in jm.classes.items():
+        if "." in cn or cn == "Utils" or cn in st:
+            continue
+        f_ = width_form(jm, c)
+        if f_[0] == "lit":
+            st[cn] = f_[1]
     return st
+
+
+def width_form(jm, c):
+    """('lit', n) | ('own',) | ('super+own',) | ('other', text) for the body of width()"""
+    m = jm.method(c, "width")
+    if m is None:
+        return ("none",)
+    st_ = (m.get("body") or {}).get("stmts") or []
+    if len(st_) != 1 or st_[0].get("k") != "RETURN":
+        return ("other", "body")
+    e = st_[0]["e"]
+
+    def is_call(x, name, recv=None):
+        if x.get("k") != "METHOD_INVOCATION" or x.get("args"):
+            return False
+        fn = x["fn"]
+        if recv is None:
+            return fn.get("k") == "IDENTIFIER" and fn.get("name") == name
+        return fn.get("k") == "MEMBER_SELECT" and fn.get("name") == name and fn["e"].get("k") == "IDENTIFIER" \
+            and fn["e"].get("name") == recv
+    if e.get("k") == "INT_LITERAL":
+        return ("lit", int(e["v"]))
+    if is_call(e, "fieldWidth"):
+        return ("own",)
+    if e.get("k") == "PLUS" and ((is_call(e["a"], "width", "super") and is_call(e["b"], "fieldWidth")) or
+                                 (is_call(e["b"], "width", "super") and is_call(e["a"], "fieldWidth"))):
+        return ("super+own",)
+    return ("other", e.get("k"))
+
+
+def check_width(rep, jm, r, decl, c, where, stats):
+    """(e) width() -- what parsers advance by and size-delimited loops count down with -- is the encoded size of the
+    object: a literal equal to the reference's static size of the whole declaration (inherited fields included), or the
+    sum of the own part (fieldWidth(), compared with the bytes written in (c)) and, for a child, the parent's width()"""
+    f_ = width_form(jm, c)
+    if f_[0] == "none":
+        return
+    stats["widths"] += 1
+    has_parent = bool(r.decls[decl].parent)
+    if f_[0] == "lit":
+        try:
+            want = r.total_static_bits(decl)
+        except refm.RefError:
+            return
+        if want is None or want != f_[1] * 8:
+            rep.add("C19|java|width|static", f"{c['name']}.width() returns {f_[1]}; the reference's encoded size of {decl} is "
+                    f"{'not static' if want is None else str(want // 8) + ' octets'}", where)
+    elif f_[0] == "own":
+        if has_parent:
+            rep.add("C19|java|width|inherited-part", f"{c['name']}.width() leaves out the inherited fields of {decl}", where)
+    elif f_[0] == "super+own":
+        if not has_parent:
+            rep.add("C19|java|width|inherited-part", f"{c['name']}.width() adds super.width() but {decl} has no parent", where)
+    else:
+        rep.add("C19|java|width|unmodelled", f"{c['name']}.width() has an unrecognised form ({f_[1]})", where)
 
 
 def check_decl(rep, name, jm, r, decl, c, stats, st):
@@ -113,6 +176,7 @@ def check_decl(rep, name, jm, r, decl, c, stats, st):
         kids = r.children(decl) if hasattr(r, "children") else []
         if ev.dispatch:
             stats["dispatch"] += len(ev.dispatch)
+    check_width(rep, jm, r, decl, c, where, stats)
     # ---- serialize
     sm = None
     if r.has_payload(decl):
@@ -215,7 +279,7 @@ def run(rep, tier, seed):
     g = rc.gen(tier, seed)
     d, idx = stages.stage_java(tier, seed)
     stats = {"modules": 0, "functions": 0, "obligations": 0, "discharged": 0, "items": 0, "undecided": 0, "helpers": 0,
-             "serializers": 0, "sizes": 0, "dispatch": 0, "skipped_modules": 0, "classes": 0}
+             "serializers": 0, "sizes": 0, "widths": 0, "dispatch": 0, "skipped_modules": 0, "classes": 0}
     for name in sorted(idx):
         info = idx[name]
         if info["rc"] != 0:
